@@ -53,11 +53,7 @@ int epoll_wait(int, struct epoll_event *evs, int maxevents, int timeout) {
     (void)timeout; vk::epoll_waits++; if (vk::on_wait) vk::on_wait(); return vk_epoll_collect(evs, maxevents);
 #endif
 }
-int select(int nfds, fd_set *r, fd_set *w, fd_set *e, struct timeval *) {
-    vk::selects++;
-#ifndef VK_BLOCKING
-    if (vk::on_wait) vk::on_wait();
-#endif
+static int vk_select_collect(int nfds, fd_set *r, fd_set *w, fd_set *e) {
     int n = 0;
     for (int fd = 0; fd < nfds && fd < vk::NFD; fd++) {
         unsigned c = vk::cond(fd);
@@ -67,7 +63,21 @@ int select(int nfds, fd_set *r, fd_set *w, fd_set *e, struct timeval *) {
     }
     return n;
 }
-int eventfd(unsigned int, int) { return vk::EVFD; }
+int select(int nfds, fd_set *r, fd_set *w, fd_set *e, struct timeval *tv) {
+#ifdef VK_BLOCKING
+    std::unique_lock<std::mutex> lk(vk::m);
+    vk::selects++;
+    fd_set r0, w0; FD_ZERO(&r0); FD_ZERO(&w0); if (r) r0 = *r; if (w) w0 = *w;
+    int n = vk_select_collect(nfds, r, w, e);
+    while (n == 0 && tv == nullptr) { vk::cv.wait(lk); if (r) *r = r0; if (w) *w = w0; n = vk_select_collect(nfds, r, w, e); }   // no timeout: sleeps until a watched descriptor becomes ready
+    return n;
+#else
+    vk::selects++;
+    if (vk::on_wait) vk::on_wait();
+    return vk_select_collect(nfds, r, w, e);
+#endif
+}
+int eventfd(unsigned int initval, int) { vk::evfd_counter = initval; return vk::EVFD; }       // a NEW eventfd object: its counter starts at initval
 ssize_t write(int fd, const void *p, size_t n) {
 #ifdef VK_BLOCKING
     std::lock_guard<std::mutex> lk(vk::m);
